@@ -5,6 +5,7 @@
    disk stalls are outside the model.  Hypotheses built into the graph: callbacks and file operations return; a
    connection operation returns by its deadline or when the connection is closed. *)
 From SV Require Import Model.Common Model.Metrics Model.Shutdown Proofs.ShutdownProofs Proofs.MetricsProofs Proofs.ShutdownClientProofs.
+From SV Require Import Model.ShutdownBacklog Proofs.ShutdownBacklogProofs.
 Local Open Scope Z_scope.
 
 (* the completion bound computed from the wake-up sets is sound for EVERY wait graph: every run completes, no
@@ -110,3 +111,88 @@ Theorem C18_example :
   bnd (agent prod_params prod_shape_repaired PStuck) = Some 600.
 Proof. exact prod_example_lemma. Qed.
 Print Assumptions C18_example.
+
+(* ------------------------------------------------------------------------------------------------------------ *)
+(* "for every amount of pending data": the output feeder around the stop request (Model/ShutdownBacklog.v:
+   outputFeeder.Run / loadToOutput / saveQueued / saveOutput and bufferer.Destroy at event granularity; the persistent
+   queue is a list of ARBITRARY length; the scheduler - the event list - resolves every select).                  *)
+
+(* In every reachable state after the stop request in which the feeder can forward a chunk (a select that can take
+   outputChannel <- chunk), the stop branch of that select is enabled too: whether the feeder goes on never depends
+   on the window being full, and never on what is left in the queue. *)
+Theorem C18_feeder_stop_branch_always_enabled :
+  forall cfg evs s, fg_fast cfg = false -> f_run cfg f_init evs = Some s ->
+  f_closed s = true -> enabled cfg s FSend = true -> enabled cfg s FStop = true.
+Proof. exact stop_branch_always_enabled_lemma. Qed.
+Print Assumptions C18_feeder_stop_branch_always_enabled.
+
+(* For ANY backlog and any run: the number of chunks sent to the output channel after the stop request (read off
+   the history of the channel) equals the number of selects the scheduler resolved in favour of the send while the
+   stop branch was offered.  Go resolves such a select by a fair coin: more than k forwards after the stop request
+   have probability 2^-k, whatever the backlog. *)
+Theorem C18_feeder_after_stop_bounded_by_choices :
+  forall cfg evs s, fg_fast cfg = false -> f_run cfg f_init evs = Some s ->
+  fwd_after s = f_choices cfg f_init evs.
+Proof. exact after_stop_bounded_by_choices_lemma. Qed.
+Print Assumptions C18_feeder_after_stop_bounded_by_choices.
+
+(* The deterministic part: from any reachable state after the stop request, every run has at most
+   (chunks in the queue) + (chunks in the window) + 5 + 2 * (selects resolved for the send) steps of the feeder: one
+   cleanup iteration per pending chunk - a bounded-time file write for a chunk that is only in memory, nothing for a
+   chunk that is on disk already - and nothing else grows with the backlog.  (The wait for the consumers inside the
+   cleanup is the peer wait of C18_feeder_bounded_by_client.) *)
+Theorem C18_feeder_steps_after_stop_bounded :
+  forall cfg evs0 s, fg_fast cfg = false -> f_run cfg f_init evs0 = Some s -> f_closed s = true ->
+  forall evs s', f_run cfg s evs = Some s' ->
+  (f_steps evs <= length (f_queue s) + length (f_window s) + 5 + 2 * f_choices cfg s evs)%nat.
+Proof. exact steps_after_stop_bounded_lemma. Qed.
+Print Assumptions C18_feeder_steps_after_stop_bounded.
+
+(* ... and the feeder is never stuck on its own after the stop request: in every reachable state before Stopped one
+   of its steps is enabled - at the select it is the stop branch - except while it waits for its consumers. *)
+Theorem C18_feeder_never_stuck_after_stop :
+  forall cfg evs s, fg_fast cfg = false -> f_run cfg f_init evs = Some s ->
+  f_closed s = true -> f_pc s <> PStopped ->
+  (exists e, feeder_event e = true /\ enabled cfg s e = true /\ (forall c, f_pc s = PSelect c -> e = FStop)) \/
+  (f_pc s = PWaitConsumers /\ f_cons s = true).
+Proof. exact never_stuck_lemma. Qed.
+Print Assumptions C18_feeder_never_stuck_after_stop.
+
+(* The main loop holds at most one chunk: of the chunks it has taken from the queue all but one are forwarded or dropped
+   (unloadable); so after the stop request it takes - and loads from disk - at most one chunk more than it forwards or
+   drops.  (Observable on the real bufferer: recovered chunks minus the gauge queued_chunks{persistent}.) *)
+Theorem C18_feeder_loop_holds_one_chunk :
+  forall cfg evs s, f_run cfg f_init evs = Some s ->
+  (f_loops s <= length (f_out s) + length (f_bad s) + 1)%nat.
+Proof. exact loop_holds_one_chunk_lemma. Qed.
+Print Assumptions C18_feeder_loop_holds_one_chunk.
+
+(* The VARIANT with a non-blocking send in front of the two-way select (not the code of the repository; seeded to
+   test this check) violates all of it, for every backlog length n and every window w > 0: after the stop request,
+   with a consumer that takes each chunk at once, every step of the feeder is the ONLY step it can make (the stop
+   branch is not offered while the window has room), all n chunks are forwarded after the stop request, and no select
+   was resolved against the stop branch. *)
+Theorem C18_fast_path_variant_refuted :
+  forall n w q, (0 < w)%nat -> (n <= q)%nat ->
+  let cfg := FCFG w q true in
+  exists s0 s,
+    f_run cfg f_init (accepts (backlog n) ++ [EDestroy]) = Some s0 /\
+    length (f_queue s0) = n /\
+    f_run_forced cfg s0 (rep n pass_one) = Some s /\
+    fwd_after s = n /\ f_choices cfg s0 (rep n pass_one) = O /\ f_queue s = [] /\
+    ((0 < n)%nat -> exists s1, f_run cfg s0 [FRecv] = Some s1 /\ f_closed s1 = true /\
+                               enabled cfg s1 FSend = true /\ enabled cfg s1 FStop = false).
+Proof. exact fast_path_variant_refuted_lemma. Qed.
+Print Assumptions C18_fast_path_variant_refuted.
+
+(* test on literals (non-vacuity): 40 chunk files, window 8, stop after 5 chunks, 3 selects resolved for the send:
+   3 forwards after the stop, 8 received, 32 left to the cleanup, 9 taken from the queue by the main loop, stopped; the variant forwards them without a choice
+   and (with the scheduler preferring the stop branch) never reaches it *)
+Theorem C18_backlog_example :
+  let cfg := FCFG 8 500 false in
+  replay_backlog cfg 40 5 3 = Some (3, 3, 8, 32, 9, true)%nat /\
+  (exists s, f_run cfg f_init (accepts (backlog 40) ++ rep 5 pass_one ++ [EDestroy] ++ rep 3 pass_one) = Some s /\
+             f_closed s = true /\ fwd_after s = 3%nat /\ length (f_queue s) = 32%nat) /\
+  replay_backlog (FCFG 8 500 true) 40 5 3 = Some (0, 3, 8, 0, 9, false)%nat.
+Proof. exact backlog_example_lemma. Qed.
+Print Assumptions C18_backlog_example.
